@@ -89,8 +89,20 @@ type kvGate interface {
 
 type kvStore struct {
 	kv.IKVStore
-	g kvGate
+	g      kvGate
+	closed bool
 }
+
+// Close remembers that the store was closed (see harness.retire).
+func (s *kvStore) Close() error {
+	s.closed = true
+	return s.IKVStore.Close()
+}
+
+// nopGate never injects.
+type nopGate struct{}
+
+func (nopGate) kvCall(string) (bool, bool) { return false, false }
 
 func (s *kvStore) IterateValue(fk []byte, lk []byte, inc bool,
 	op func(key []byte, data []byte) (bool, error)) error {
@@ -144,21 +156,27 @@ func (s *kvStore) BulkRemoveEntries(fk []byte, lk []byte) error {
 // goroutine of ShardedDB, which panics (killing the process) on error; they
 // are never failed.
 
-func kvFactory(g kvGate) kv.Factory {
+// kvFactory opens the real Pebble kv store and wraps it. Every store opened
+// is handed to track: ShardedDB has error paths that panic without closing
+// the shards it already opened, and an unclosed Pebble instance on a dead disk
+// keeps retrying its table statistics forever.
+func kvFactory(g kvGate, track func(*kvStore)) kv.Factory {
 	return func(cfg config.LogDBConfig, cb kv.LogDBCallback, dir string, wal string, fs vfs.IFS) (kv.IKVStore, error) {
 		s, err := pebble.NewKVStore(cfg, cb, dir, wal, fs)
 		if err != nil {
 			return nil, err
 		}
 		if g == nil {
-			return s, nil
+			g = nopGate{}
 		}
-		return &kvStore{IKVStore: s, g: g}, nil
+		w := &kvStore{IKVStore: s, g: g}
+		track(w)
+		return w, nil
 	}
 }
 
 // openStore opens the real store of the given kind over fs.
-func openStore(kind storeKind, fs gvfs.FS, memtable uint64, g kvGate) (raftio.ILogDB, error) {
+func openStore(kind storeKind, fs gvfs.FS, memtable uint64, g kvGate, track func(*kvStore)) (raftio.ILogDB, error) {
 	cfg := nhConfig(fs, memtable)
 	switch kind {
 	case kTan:
@@ -171,7 +189,7 @@ func openStore(kind storeKind, fs gvfs.FS, memtable uint64, g kvGate) (raftio.IL
 			dirs[i] = dataDir
 		}
 		batched := kind == kPebbleBatched
-		db, err := logdb.OpenShardedDB(cfg, nil, dirs, nil, batched, !batched, kvFactory(g))
+		db, err := logdb.OpenShardedDB(cfg, nil, dirs, nil, batched, !batched, kvFactory(g, track))
 		if err != nil {
 			return nil, err
 		}
